@@ -321,8 +321,10 @@ def rule_m(rep, src):
 
 
 def o3(rep, src):
-    """DataType::flatten_optional: List(Optional(T)) -> Optional(List(T)).  The visitor carries a flag "an Optional was found below"."""
+    """DataType::flatten_optional: List(Optional(T)) -> Optional(List(T)).  The visitor carries a flag "an Optional was found below".
+    The flag component is computed with the symbolic evaluator (util_symex), so destructuring, named locals and early returns are transparent."""
     from .core import find, walk, show, path_of, pat_binds
+    from .util_symex import Ev, desugar_returns
 
     rep.rule(
         "O3",
@@ -336,59 +338,116 @@ def o3(rep, src):
         rep.undecidable("O3", "FlattenOptionalVisitor", "impl Visitor<(bool, DataType)> for FlattenOptionalVisitor not found (methods: %s)" % sorted(fns), "src/data_type/mod.rs")
         return
 
-    def leaves(e):
-        if e["k"] == "binary" and e["op"] in ("||", "&&", "|", "&"):
-            a, oa = leaves(e["lhs"])
-            b, ob = leaves(e["rhs"])
-            return a + b, oa + ob + [e["op"]]
-        return [e], []
+    def first(t):
+        """flag component of a (flag, type) term"""
+        if t[0] == "tuple" and len(t[1]) == 2:
+            return t[1][0]
+        if t[0] == "phi":
+            return ("phi", tuple(first(x) for x in t[1]))
+        return ("tproj", 0, t)
+
+    def simp(t):
+        """reduce `.0` / `.1` (field or positional projection) on literal tuple terms"""
+        if not isinstance(t, tuple):
+            return t
+        if t and t[0] == "field" and len(t) == 3 and isinstance(t[1], tuple):
+            b = simp(t[1])
+            if b[0] == "tuple" and str(t[2]).isdigit() and int(t[2]) < len(b[1]):
+                return simp(b[1][int(t[2])])
+            return ("field", b, t[2])
+        if t and t[0] == "tproj" and len(t) == 3 and isinstance(t[2], tuple):
+            b = simp(t[2])
+            if b[0] == "tuple" and t[1] < len(b[1]):
+                return simp(b[1][t[1]])
+            return ("tproj", t[1], b)
+        return tuple(simp(x) if isinstance(x, tuple) else x for x in t)
+
+    def disj(t):
+        """atoms of a pure disjunction, None when another connective occurs"""
+        t = simp(t)
+        if t[0] == "bin" and t[1] in ("||", "|"):
+            a, b = disj(t[2]), disj(t[3])
+            return None if a is None or b is None else a | b
+        if t[0] == "bin" and t[1] in ("&&", "&"):
+            return None
+        if t[0] == "phi":
+            return None
+        return {t}
 
     for nm, f in sorted(fns.items()):
         key = "FlattenOptionalVisitor::" + nm
-        child = [p["pat"]["name"] for p in f.params if not p.get("self") and p["pat"]["k"] == "ident" and "(bool, DataType)" in p["ty"].replace(" ,", ",")]
-        is_vec = [p["pat"]["name"] for p in f.params if not p.get("self") and p["pat"]["k"] == "ident" and p["ty"].replace(" ", "").startswith("Vec<")]
-        st = f.body["stmts"]
-        tail = st[-1]["e"] if st and st[-1]["k"] == "expr" and not st[-1].get("semi") else None
-        flag_e, avail = None, []
-        if tail is not None and tail["k"] == "tuple" and len(tail["elems"]) == 2:
-            flag_e = tail["elems"][0]
-            avail = ["%s.0" % c for c in child if c not in is_vec]
-        elif tail is not None and tail["k"] == "mcall" and tail["m"] == "fold" and len(tail["args"]) == 2 and tail["args"][1]["k"] == "closure":
-            cl = tail["args"][1]
-            body = cl["body"]
-            while body["k"] == "block" and len(body["stmts"]) == 1 and body["stmts"][0]["k"] == "expr":
-                body = body["stmts"][0]["e"]
-            init = tail["args"][0]
-            if body["k"] == "tuple" and len(body["elems"]) == 2 and init["k"] == "tuple" and len(cl["params"]) == 2:
-                flag_e = body["elems"][0]
-                acc = pat_binds(cl["params"][0])
-                # the flag of the element: first component of the innermost 2-tuple pattern
-                inner = [p for p in walk(cl["params"][1]) if p["k"] == "tuple" and len(p["elems"]) == 2 and p["elems"][0]["k"] == "ident" and p["elems"][1]["k"] == "ident"]
-                el = inner[-1]["elems"][0]["name"] if inner else None
-                avail = (["%s.0" % acc[0]] if acc else []) + ([el] if el else [])
-                if not (init["elems"][0]["k"] == "lit" and init["elems"][0]["v"] is False):
-                    rep.violation("O3", key, "the fold over the children does not start from the flag `false`", f.where())
-        if flag_e is None:
-            rep.undecidable("O3", key, "cannot read the flag component of the result: %s" % show(f.body, 120), f.where())
+        ev = Ev()
+        env, child_flags, vec_param = {}, [], None
+        for p_ in f.params:
+            if p_.get("self"):
+                continue
+            ty = p_["ty"].replace(" ", "")
+            pn = pat_binds(p_["pat"])
+            if ty == "(bool,DataType)":
+                fl = ("var", "flag(%s)" % (pn[0] if pn else "?"))
+                ev.bind(p_["pat"], ("tuple", (fl, ("var", "type(%s)" % (pn[0] if pn else "?")))), env)
+                child_flags.append(fl)
+            elif ty.startswith("Vec<") and "(bool,DataType)" in ty:
+                ev.bind(p_["pat"], ("var", "$children"), env)
+                vec_param = pn[0] if pn else None
+            else:
+                ev.bind(p_["pat"], ("var", "$other"), env)
+        tail = desugar_returns(f.body)
+        folds = [m for m in find(tail, "mcall") if m["m"] == "fold" and len(m["args"]) == 2 and m["args"][1]["k"] == "closure"]
+        if vec_param is not None:
+            # the flag is folded over the children: evaluate the step on a symbolic accumulator and element
+            if len(folds) != 1:
+                rep.undecidable("O3", key, "the children are not folded once: %s" % show(f.body, 120), f.where())
+                continue
+            fo = folds[0]
+            init = ev.eval(fo["args"][0], dict(env))
+            cl = fo["args"][1]
+            e2 = dict(env)
+            acc = ("tuple", (("var", "flag(acc)"), ("var", "type(acc)")))
+            el = ("tuple", (("var", "$name"), ("tuple", (("var", "flag(child)"), ("var", "type(child)")))))
+            if len(cl["params"]) != 2:
+                rep.undecidable("O3", key, "fold step with %d parameters" % len(cl["params"]), f.where())
+                continue
+            ev.bind(cl["params"][0], acc, e2)
+            ev.bind(cl["params"][1], el, e2)
+            body = desugar_returns(cl["body"]) if cl["body"]["k"] == "block" else cl["body"]
+            step = ev.block(body, e2) if body["k"] == "block" else ev.eval(body, e2)
+            flag, want = simp(first(step)), {("var", "flag(acc)"), ("var", "flag(child)")}
+            rep.instance("O3", key, {"method": nm, "children_flags": ["flag(acc)", "flag(child)"], "flag": repr(flag)[:120]})
+            if simp(first(init)) != ("lit", False):
+                rep.violation("O3", key, "the fold over the children does not start from the flag `false`", f.where())
+            got = disj(flag)
+            if got is None or not want <= got or (got - want):
+                rep.violation("O3", key, "the flag `%s` does not take the disjunction of all children flags (flag(acc), flag(child))" % (repr(flag)[:80]), f.where())
             continue
-        ls, ops = leaves(flag_e)
-        shown = [show(x, 30).replace(" ", "") for x in ls]
-        rep.instance("O3", key, {"method": nm, "children_flags": avail, "flag": show(flag_e, 80)})
+        res = ev.block(tail, env)
+        flag = simp(first(res))
+        rep.instance("O3", key, {"method": nm, "children_flags": [c[1] for c in child_flags], "flag": repr(flag)[:120]})
         if nm == "optional":
-            if shown != ["true"]:
-                rep.violation("O3", key, "`optional` must report that an Optional was found (flag true), found `%s`" % show(flag_e, 60), f.where())
+            if flag != ("lit", True):
+                rep.violation("O3", key, "`optional` must report that an Optional was found (flag true), found `%s`" % (repr(flag)[:60]), f.where())
             continue
-        if not avail:
-            if shown != ["false"]:
-                rep.violation("O3", key, "a node without children reports the flag `%s`" % show(flag_e, 60), f.where())
+        if not child_flags:
+            if flag != ("lit", False):
+                rep.violation("O3", key, "a node without children reports the flag `%s`" % (repr(flag)[:60]), f.where())
             continue
-        missing = [a for a in avail if a not in shown]
-        if missing or any(o in ("&&", "&") for o in ops):
-            rep.violation("O3", key, "the flag `%s` does not take the disjunction of all children flags (%s)" % (show(flag_e, 60), ", ".join(avail)), f.where())
-    # flatten_optional itself
+        got = disj(flag)
+        if got is None or not set(child_flags) <= got or (got - set(child_flags)):
+            rep.violation("O3", key, "the flag `%s` does not take the disjunction of all children flags (%s)" % (repr(flag)[:80], ", ".join(c[1] for c in child_flags)), f.where())
+    # flatten_optional itself: Optional(flat) exactly under the flag
     g = src.one_fn(name="flatten_optional", file="data_type/mod.rs", self_ty="DataType")
-    ifs = [x for x in find(g.body, "if")]
-    ok = len(ifs) == 1 and any(is_call_to(c, "DataType::optional") for c in find(ifs[0]["then"], "call")) and not any(is_call_to(c, "DataType::optional") for c in find(ifs[0]["else"] or {}, "call"))
+    body = desugar_returns(g.body)
+    ifs = [x for x in find(body, "if")]
+    ok = False
+    if len(ifs) == 1:
+        c = ifs[0]["cond"]
+        neg = False
+        while c["k"] == "unary" and c["op"].strip() == "!":
+            c, neg = c["e"], not neg
+        th, el = ifs[0]["then"], ifs[0].get("else") or {"k": "block", "stmts": []}
+        if neg:
+            th, el = el, th
+        ok = any(is_call_to(x, "DataType::optional") for x in find(th, "call")) and not any(is_call_to(x, "DataType::optional") for x in find(el, "call"))
     rep.instance("O3", "DataType::flatten_optional", {"body": show(g.body, 140)})
     if not ok:
         rep.violation("O3", "DataType::flatten_optional", "flatten_optional does not wrap the flattened type in Optional exactly when the flag is set", g.where())
